@@ -10,7 +10,7 @@ toy instance (linear model, L1 sum loss, SGD with momentum, WarmupMultiStepLR).
   → ok  (θ₀_n θ₀_d … lr_n lr_d) per iteration        (parameters and logged lr after every iteration)
 
   hist  d bs k T 0 aux | mu | sched | ms | X | y | w0 | ckSteps valSteps hasVal
-        | (total kill(-1 = none) where swv resume) per process | (site touch needsVal) per row of the between-table
+        | (total kill(-1 = none) where swv resume stale-batch(-1 = none)) per process | (site touch needsVal) per row of the between-table
   → ok  per process: start n latest(-1 = none) last_epoch | then per completed iteration:
         it θ… lr-in-effect lr-after-scheduler-step            (`C16E.history` on the toy instance)
 -/
@@ -109,10 +109,10 @@ def parseTable : List Int → Option C16E.Table
 
 def parseProcs : List Int → Option (List C16E.Proc)
   | [] => some []
-  | total :: kill :: _where :: swv :: res :: rest => do
+  | total :: kill :: _where :: swv :: res :: stale :: rest => do
     let tl ← parseProcs rest
     some ({ total := total.toNat, kill := if kill < 0 then none else some kill.toNat, swv := swv != 0,
-            resume := res != 0 } :: tl)
+            resume := res != 0, stale := if stale < 0 then none else some stale.toNat } :: tl)
   | _ => none
 
 def opHist (c : ToyCfg) (aux : Bool) (ev : List Int) (procs : List C16E.Proc) (tbl : C16E.Table) : String :=
